@@ -17,6 +17,7 @@ import (
 	"net/http"
 	"net/http/httptest"
 	"strings"
+	"sync"
 	"time"
 
 	"github.com/cep21/circuit/v4"
@@ -419,6 +420,9 @@ func (statsFamily) Exec(c *hc.Case) {
 	if c.ID%4 == 0 {
 		fallbackOnlyStreamProbe(c, clk)
 	}
+	if c.ID%4 == 1 {
+		laggingListenerProbe(c)
+	}
 	for t := range tags {
 		c.Tags = append(c.Tags, t)
 	}
@@ -550,4 +554,97 @@ func (statsFamily) Emit(w io.Writer, f *hc.File) {
 	fmt.Fprintln(w, "].")
 	fmt.Fprintln(w, "Definition result := Eval vm_compute in stats_mismatches cases.")
 	fmt.Fprintln(w, "Print result.")
+}
+
+// stallingWriter is a stream client that is slow to take its first record.
+type stallingWriter struct {
+	mu      sync.Mutex
+	hdr     http.Header
+	chunks  [][]byte
+	first   chan struct{}
+	release chan struct{}
+	stalled bool
+}
+
+func (w *stallingWriter) Header() http.Header { return w.hdr }
+func (w *stallingWriter) WriteHeader(int)     {}
+func (w *stallingWriter) Flush()              {}
+func (w *stallingWriter) Write(b []byte) (int, error) {
+	w.mu.Lock()
+	firstTime := !w.stalled
+	w.stalled = true
+	w.mu.Unlock()
+	if firstTime {
+		close(w.first)
+		<-w.release
+	}
+	w.mu.Lock()
+	w.chunks = append(w.chunks, append([]byte{}, b...))
+	w.mu.Unlock()
+	return len(b), nil
+}
+
+// laggingListenerProbe: records queued for a listener that lags behind are the records that were computed when they
+// were queued.  The listener stalls inside its first write; ticks pass (records with zero counts pile up for it);
+// ten calls succeed; more ticks pass; the listener is released.  Everything it is then served is a well-formed
+// record of this circuit, and the records queued before the calls still say zero.
+func laggingListenerProbe(c *hc.Case) {
+	m := &circuit.Manager{DefaultCircuitProperties: []circuit.CommandPropertiesConstructor{(&rolling.StatFactory{}).CreateConfig}}
+	cir := m.MustCreateCircuit("lagging")
+	es := &metriceventstream.MetricEventStream{Manager: m, TickDuration: 5 * time.Millisecond}
+	go func() { _ = es.Start() }()
+	defer es.Close()
+	w := &stallingWriter{hdr: http.Header{}, first: make(chan struct{}), release: make(chan struct{})}
+	ctx, cancel := context.WithCancel(context.Background())
+	req, _ := http.NewRequest("GET", "/", nil)
+	served := make(chan struct{})
+	go func() {
+		defer close(served)
+		es.ServeHTTP(w, req.WithContext(ctx))
+	}()
+	select {
+	case <-w.first:
+	case <-time.After(3 * time.Second):
+		cancel()
+		close(w.release)
+		return
+	}
+	time.Sleep(40 * time.Millisecond) // records computed BEFORE any call are queued behind the stalled write
+	callsStart := time.Now().UnixNano() / int64(time.Millisecond)
+	for k := 0; k < 10; k++ {
+		_ = cir.Run(context.Background(), func(context.Context) error { return nil })
+	}
+	time.Sleep(40 * time.Millisecond)
+	close(w.release)
+	time.Sleep(60 * time.Millisecond)
+	cancel()
+	<-served
+	w.mu.Lock()
+	defer w.mu.Unlock()
+	sameTime := map[int64]int{}
+	for _, ch := range w.chunks {
+		for _, line := range strings.Split(string(ch), "\n") {
+			if !strings.HasPrefix(line, "data:") {
+				continue
+			}
+			var rec map[string]interface{}
+			if json.Unmarshal([]byte(strings.TrimPrefix(strings.TrimSpace(line), "data:")), &rec) != nil || rec["name"] != "lagging" {
+				c.Viol = append(c.Viol, hc.Violation{Clause: "each hystrix event-stream record is computed from those same numbers together with the circuit's name and current IsOpen value", Detail: fmt.Sprintf("a listener that lagged behind was served something that is not a record of its circuit: %.120q", line), AtOp: len(c.Ops)})
+				return
+			}
+			cnt, _ := rec["requestCount"].(float64)
+			at, _ := rec["currentTime"].(float64)
+			sameTime[int64(at)]++
+			if int64(at) < callsStart-1 && cnt != 0 {
+				c.Viol = append(c.Viol, hc.Violation{Clause: "each hystrix event-stream record is computed from those same numbers together with the circuit's name and current IsOpen value", Detail: fmt.Sprintf("a record computed at %d ms, before the first call (%d ms), was served to a lagging listener with requestCount %v", int64(at), callsStart, cnt), AtOp: len(c.Ops)})
+				return
+			}
+		}
+	}
+	for at, n := range sameTime {
+		if n >= 3 { // one record per 5 ms tick: three served records with one time are one record three times
+			c.Viol = append(c.Viol, hc.Violation{Clause: "each hystrix event-stream record is computed from those same numbers together with the circuit's name and current IsOpen value", Detail: fmt.Sprintf("a lagging listener was served %d records all computed at %d ms (one is computed per 5 ms tick): queued records were overwritten", n, at), AtOp: len(c.Ops)})
+			return
+		}
+	}
 }
